@@ -64,6 +64,8 @@ pub struct Stk {
     pub steps: usize,
     /// C15 only: keep the reward books (adds decisions about stakes staying positive)
     pub track_rewards: bool,
+    /// C15: also read the pending reward through the Delegation query and compare (forks on is_zero)
+    pub check_shown_by_query: bool,
     /// when non-empty, the next amounts are these constants instead of fresh symbols
     pub fixed_amounts: std::collections::VecDeque<u128>,
     /// the same with amounts made by the caller (e.g. the symbol of an earlier step: "undelegate all")
@@ -162,6 +164,7 @@ impl Stk {
             lower_void: [[false; 2]; 2],
             steps: 0,
             track_rewards: false,
+            check_shown_by_query: false,
             fixed_amounts: Default::default(),
             given_amounts: Default::default(),
         }
@@ -204,10 +207,31 @@ impl Stk {
     pub fn observed_reward(&self, d: usize, vv: usize) -> Option<Uint128> {
         let block = self.app.block_info();
         let (del, val) = (self.dels[d].clone(), self.vals[vv].clone());
-        self.app
+        let direct = self
+            .app
             .read_module(|router, _api, storage| router.staking.get_rewards(storage, &block, &del, &val))
             .unwrap()
-            .map(|c| c.amount)
+            .map(|c| c.amount);
+        // what a contract or a user is SHOWN: accumulated_rewards of the Delegation query (seed C15e);
+        // it must be the same number, in the bonded denomination
+        if !self.check_shown_by_query {
+            return direct;
+        }
+        if let Ok(q) = self.app.wrap().query_delegation(del.clone(), val.clone()) {
+            let shown: Option<Uint128> = q.as_ref().map(|fd| fd.accumulated_rewards.iter().filter(|c| c.denom == DENOM).map(|c| c.amount).fold(Uint128::zero(), |a, b| a + b));
+            match (shown, direct) {
+                (Some(s_), Some(d_)) => {
+                    check("delegation_query_shows_the_pending_reward", eq(v(s_), v(d_)));
+                    let foreign = q.as_ref().map(|fd| fd.accumulated_rewards.iter().any(|c| c.denom != DENOM)).unwrap_or(false);
+                    check_native("shown_reward_is_in_the_bonded_denomination", !foreign, || format!("{:?}", q));
+                }
+                (None, None) => {}
+                (a_, b_) => {
+                    check_native("delegation_query_and_keeper_agree_on_existence", false, || format!("query {:?} keeper {:?}", a_.is_some(), b_.is_some()));
+                }
+            }
+        }
+        direct
     }
 
     pub fn check_balances(&self, tag: &str) {
